@@ -79,11 +79,18 @@ CLAIMED = {
         "checked on concrete values. All bounded, labelled as such.",
    note="format! itself does not terminate in CBMC (even concrete), so its semantics for plain {} templates is assumed. Not covered: JSON/CSV "
         "encoding (serde_json, csv), row-separator protocol in the searcher paths."),
+
+ "C11": dict(engine="K+F", ref="5/C11",
+   technique="Kani on the real alias tables (Op::from, ArithmeticOp::from, Field::from_str) over every documented spelling and on the keyword table of Lexer::next_lexem copied verbatim onto a shim lexer",
+   text="Every documented operator / arithmetic / column spelling, in lower and upper case, is proved to map to the same value as its canonical "
+        "spelling (finite tables, enumerated completely); the lexer's keyword table is proved to classify every documented operator word, "
+        "arithmetic word and clause keyword, in three casings; the BETWEEN guard of parse_cond is case-insensitive.",
+   note="Not covered: whitespace-split invariance, bracket styles, optional tokens, root-option aliases, function aliases (symbolic lexing infeasible)."),
 }
 PENDING = "no contract-based check built yet in this revision (planned: DESIGN.md section 5)"
 NOT_APPLICABLE = {
  
- "C11": PENDING, "C16": PENDING,
+ "C16": PENDING,
  "C08": "GROUP BY partitioning lives in iterator-adapter closures over HashMap<Vec<String>, Vec<HashMap<String,String>>>: Verus rejects the adapters, CBMC does not finish two string-keyed rows; no closed fragment carries the partition property (DESIGN.md section 6)",
  "C17": "fault isolation is about read_dir/open failures, closed pipes and the process exit status (OS behaviour); the only closed fragment (error_count -> status) is proved under C10 and does not decide C17",
  "C18": "termination and at-most-once traversal over arbitrary symlink graphs is a whole-history property of visit_dir plus the OS namespace; ok_to_visit_dir needs a DirEntry that cannot be constructed by a verifier",
